@@ -15,7 +15,7 @@ import sys
 import threading
 import time
 
-OUTCOMES = ('done', 'failed', 'raise', 'none', 'notpair', 'badstatus', 'badupdate', 'emptybadupdate', 'waiting', 'corrupt', 'readonly', 'sysexit')
+OUTCOMES = ('done', 'failed', 'raise', 'none', 'notpair', 'badstatus', 'badupdate', 'emptybadupdate', 'waiting', 'corrupt', 'readonly', 'sysexit', 'baseexc')
 HANG_S = 6.0
 
 
@@ -48,6 +48,8 @@ def _mk_tasks(n, edges, outcomes, log, gate=None):
                 raise RuntimeError('probe failure')
             if o == 'sysexit':
                 sys.exit(3)                       # user code calling sys.exit(): SystemExit is not an Exception
+            if o == 'baseexc':
+                raise KeyboardInterrupt('raised by the task')      # nor is KeyboardInterrupt (a task re-raising one it caught, a user-defined BaseException ...)
             if o == 'none':
                 return None
             if o == 'notpair':
@@ -220,6 +222,9 @@ def mode_sweep(args):
     me = mode_master_error({})
     failures.extend(me['failures'])
     done += me['evaluations']
+    sg = mode_scheduler_graphs({})
+    failures.extend(sg['failures'])
+    done += sg['evaluations']
     return {'evaluations': done + cyc['evaluations'], 'distinct': done + cyc['evaluations'], 'exhaustive': exhaustive,
             'total_cases': len(cases), 'failures': failures, 'seconds': round(time.time() - t0, 2)}
 
@@ -296,6 +301,143 @@ def mode_twice(args):
                 failures.append({'input': {'twice': True, 'workers': workers, 'outcomes': outc},
                                  'observed': f'C03: second schedule() on the same scheduler did not come back ({out})', 'expected': 'returns'})
                 return {'evaluations': n, 'failures': failures}
+    return {'evaluations': n, 'failures': failures}
+
+
+def mode_scheduler_graphs(args):
+    """What Scheduler.__init__ does with the graphs it is given: (a) an EMPTY nested DepGraph used as a barrier node, its two sides in different graphs (hard / soft):
+    the dependent still waits for the dependency (C01); (b) several schedulers built one after the other from the SAME graph objects (mixed hard / soft edges, a failing
+    soft dependency): every run gives the statuses of the first one and the caller's graphs are unchanged (C02)"""
+    from valjean.cosette.task import Task, TaskStatus
+    from valjean.cosette.depgraph import DepGraph
+    from valjean.cosette.scheduler import Scheduler
+    from valjean.cosette.backends.queue import QueueScheduling
+    from valjean.cosette.env import Env
+    failures, n = [], 0
+    for orientation in ('hard barrier <- soft dependent', 'soft barrier <- hard dependent'):
+        for workers in (1, 2, 4):
+            started = threading.Event()
+            seen = {}
+
+            class Producer(Task):
+                def do(self, env, config):
+                    started.wait(0.4)
+                    return {self.name: {'result': 42}}, TaskStatus.DONE
+
+            class Consumer(Task):
+                def do(self, env, config):
+                    seen['status'] = env.get('producer', {}).get('status')
+                    seen['result'] = env.get('producer', {}).get('result')
+                    started.set()
+                    return {self.name: {}}, TaskStatus.DONE
+            producer, consumer, group = Producer('producer'), Consumer('consumer'), DepGraph()
+            first = DepGraph().add_dependency(group, on=producer)
+            second = DepGraph().add_dependency(consumer, on=group)
+            hard, soft = (first, second) if orientation.startswith('hard') else (second, first)
+            out = {}
+
+            def target():
+                try:
+                    Scheduler(hard_graph=hard, soft_graph=soft, backend=QueueScheduling(n_workers=workers)).schedule(env=Env())
+                    out['ret'] = True
+                except BaseException as e:     # noqa
+                    out['exc'] = repr(e)
+            th = threading.Thread(target=target, daemon=True)
+            th.start()
+            th.join(HANG_S)
+            n += 1
+            probs = []
+            if th.is_alive() or 'exc' in out:
+                probs.append(f'C03: schedule() did not return normally ({out})')
+            elif seen.get('status') != TaskStatus.DONE or seen.get('result') != 42:
+                probs.append(f"C01: consumer started while producer was {getattr(seen.get('status'), 'name', seen.get('status'))} (its result read as {seen.get('result')!r})")
+            if probs:
+                failures.append({'input': {'scheduler_graphs': 'barrier', 'layout': orientation, 'workers': workers}, 'observed': probs,
+                                 'expected': 'a dependency through an empty nested graph holds the dependent back, whichever graphs its two sides are in'})
+    # (c) the same BACKEND object for two schedulers whose graphs relate the same task objects differently (first independent, then consumer -> producer, hard or soft):
+    # nothing of the first run may survive in the backend
+    for kind in ('h', 's'):
+        for workers in (2, 4):
+            started = threading.Event()
+            seen = {}
+
+            class Producer2(Task):
+                def do(self, env, config):
+                    if seen.get('armed'):
+                        started.wait(0.4)
+                    return {self.name: {'result': 42}}, TaskStatus.DONE
+
+            class Consumer2(Task):
+                def do(self, env, config):
+                    if seen.get('armed'):
+                        seen['status'] = env.get('producer', {}).get('status')
+                        started.set()
+                    return {self.name: {}}, TaskStatus.DONE
+            producer, consumer = Producer2('producer'), Consumer2('consumer')
+            backend = QueueScheduling(n_workers=workers)
+            out = {}
+
+            def target():
+                try:
+                    g1 = DepGraph.from_dependency_dictionary({producer: [], consumer: []})
+                    Scheduler(hard_graph=g1, backend=backend).schedule(env=Env())
+                    seen['armed'] = True
+                    hard2 = DepGraph.from_dependency_dictionary({producer: [], consumer: ([producer] if kind == 'h' else [])})
+                    soft2 = DepGraph.from_dependency_dictionary({producer: [], consumer: ([producer] if kind == 's' else [])})
+                    Scheduler(hard_graph=hard2, soft_graph=soft2, backend=backend).schedule(env=Env())
+                    out['ret'] = True
+                except BaseException as e:     # noqa
+                    out['exc'] = repr(e)
+            th = threading.Thread(target=target, daemon=True)
+            th.start()
+            th.join(HANG_S)
+            n += 1
+            probs = []
+            if th.is_alive() or 'exc' in out:
+                probs.append(f'C03: the second scheduler on the same backend did not return normally ({out})')
+            elif seen.get('status') != TaskStatus.DONE:
+                probs.append(f"C01: second run on the same backend: consumer started while producer was {getattr(seen.get('status'), 'name', seen.get('status'))}")
+            if probs:
+                failures.append({'input': {'scheduler_graphs': 'same backend, another graph', 'second_graph': f'consumer -> producer ({"hard" if kind == "h" else "soft"})', 'workers': workers},
+                                 'observed': probs, 'expected': 'the second run follows the second graph'})
+                if th.is_alive():
+                    return {'evaluations': n, 'failures': failures}
+    # (b) the same graph objects, several schedulers
+    for workers_seq in ((1, 2, 4, 1), (3, 3)):
+        log = []
+        edges = {(0, 1): 'h', (1, 2): 's', (2, 3): 'h', (0, 4): 's'}
+        outcomes = ['failed', 'done', 'done', 'done', 'done']
+        tasks = _mk_tasks(5, edges, outcomes, log)
+        hard, soft = _graphs(tasks, edges)
+        snap = lambda g: {t.name: sorted(d.name for d in g.dependencies(t)) for t in g.nodes()}      # noqa
+        h0, s0 = snap(hard), snap(soft)
+        want = expected_statuses(5, edges, outcomes)
+        for k, workers in enumerate(workers_seq):
+            n += 1
+            out = {}
+
+            def target():
+                try:
+                    out['env'] = Scheduler(hard_graph=hard, soft_graph=soft, backend=QueueScheduling(n_workers=workers)).schedule(env=Env())
+                except BaseException as e:     # noqa
+                    out['exc'] = repr(e)
+            th = threading.Thread(target=target, daemon=True)
+            th.start()
+            th.join(HANG_S)
+            probs = []
+            if th.is_alive() or 'exc' in out:
+                probs.append(f'C03: scheduler #{k + 1} on the same graphs did not return normally ({out.get("exc")})')
+            else:
+                got = {j: out['env'][f't{j}']['status'].name for j in range(5)}
+                if got != want:
+                    probs.append(f'C02: scheduler #{k + 1} built from the same graph objects: statuses {got}, expected {want}')
+            if snap(hard) != h0 or snap(soft) != s0:
+                probs.append(f'C02: the graphs of the caller were modified by building / running scheduler #{k + 1}')
+            if probs:
+                failures.append({'input': {'scheduler_graphs': 'same graph objects', 'edges': [[i, j, kd] for (i, j), kd in sorted(edges.items())], 'outcomes': outcomes,
+                                           'workers_of_successive_schedulers': list(workers_seq)}, 'observed': probs[:3],
+                                 'expected': 'every scheduler built from the same graphs gives the same statuses; the graphs are left as they were'})
+                break
     return {'evaluations': n, 'failures': failures}
 
 
@@ -695,7 +837,7 @@ def mode_rerun_single(args):
     return {'problems': _rerun_case(args['n'], edges, args['first_run'], args['between'])}
 
 
-MODES = {'master_error': mode_master_error, 'nested': mode_nested, 'twice': mode_twice, 'sweep': mode_sweep, 'cyclic': mode_cyclic, 'park': mode_park, 'rerun': mode_rerun, 'single': mode_single,
+MODES = {'scheduler_graphs': mode_scheduler_graphs, 'master_error': mode_master_error, 'nested': mode_nested, 'twice': mode_twice, 'sweep': mode_sweep, 'cyclic': mode_cyclic, 'park': mode_park, 'rerun': mode_rerun, 'single': mode_single,
          'rerun_single': mode_rerun_single}
 
 
